@@ -34,17 +34,17 @@ open LexVerif.Proof.C11
 
 /-- **C11 (B), number results, formats with separator flags** -/
 theorem partial_prefix_sep_number (c : Cfg) (o : POpts) (s : List Nat) (x : Number) (cnt : Nat)
-    (H : SepCfg c o) (hm : c.requiredMantissaDigits = true)
+    (H : SepCfg c o) (hE : ExpRadixOK c) (hm : c.requiredMantissaDigits = true)
     (h : parseFloatSyntax c o true s = .ok (.number x cnt)) :
     parseFloatSyntax c o false (s.take cnt) = .ok (.number x cnt) :=
-  partial_prefix_sep_number_g H s true x cnt hm h
+  partial_prefix_sep_number_g H hE s true x cnt hm h
 
 /-- the pieces: `parse_number` returns the same number and count on the buffer cut at its count -/
 theorem parseNumber_prefix_sep (c : Cfg) (o : POpts) (p : Bool) (b : Bytes) (neg fv : Bool) (r : Number) (count : Nat)
-    (H : SepCfg c o) (hm : c.requiredMantissaDigits = true) (hv : C12.Bytes.Valid b)
+    (H : SepCfg c o) (hE : ExpRadixOK c) (hm : c.requiredMantissaDigits = true) (hv : C12.Bytes.Valid b)
     (h : parseNumber c p o b neg fv = .ok (r, count)) :
     b.index < count ∧ count ≤ b.slc.length ∧ parseNumber c p o (trunc count b) neg fv = .ok (r, count) :=
-  parseNumber_truncS H (zerosMirror_all H .integer (by decide)) (zerosMirror_all H .fraction (by decide))
+  parseNumber_truncS H hE (zerosMirror_all H .integer (by decide)) (zerosMirror_all H .fraction (by decide))
     p b neg fv r count hm hv h
 
 /-- … and one `peek` of any component iterator at an admissible cut (`Adm`: at or behind the new cursor; exactly at it
@@ -94,6 +94,12 @@ example : fmtHexUniLTPrefix.basePrefix = 120 ∧ formatError featsRadixFormat fm
     parseFloatSyntax ⟨featsRadixFormat, fmtHexUniLTPrefix, false⟩ { exp := 112 } false
         [48, 120, 95, 49, 95, 46, 56, 112, 49, 95]
       = .ok (.number ⟨24, -3, false, false, [95, 49, 95], some [56], 1⟩ 10) := by decide +kernel
+
+/-- the radix condition: trivially for the decimal formats, by "no digit-seeking predicate" for hex L+T — and the
+digit-seeking hex formats `c13_hex_uni_i / il / ic` do NOT satisfy its checkable form -/
+example : ExpRadixOK ⟨featsRadixFormat, fmtUniITC, false⟩ ∧ ExpRadixOK ⟨featsRadixFormat, fmtHexUniLT, false⟩ ∧
+    ExpRadixOK ⟨featsRadixFormat, fmtHexUniLTPrefix, false⟩ :=
+  ⟨expRadixOK_of _ (by decide +kernel), expRadixOK_of _ (by decide +kernel), expRadixOK_of _ (by decide +kernel)⟩
 
 /-- I+L+T+C: `1__2__x` → count 6 (the cursor stands after the trailing separators), `1__2__` complete → same number -/
 example : parseFloatSyntax ⟨featsRadixFormat, fmtUniILTC, false⟩ {} true [49, 95, 95, 50, 95, 95, 120]
@@ -159,8 +165,8 @@ theorem partial_prefix_sep_model_number (feats : Features) (fmt : Format) (o : P
     (h : parseFloatSyntax ⟨feats, fmt, false⟩ o true s = .ok (.number x cnt)) :
     parseFloatModel feats fmt o true f s = renderParsed ⟨feats, fmt, false⟩ f true (.number x cnt) ∧
     parseFloatModel feats fmt o false f (s.take cnt) = renderParsed ⟨feats, fmt, false⟩ f false (.number x cnt) := by
-  have H := sepCfg_of_valid feats fmt o hfeat hf h1 h2 h3 hsep hexp hexpc hsuf hpre
-  have hc := partial_prefix_sep_number ⟨feats, fmt, false⟩ o s x cnt H hm h
+  have H := sepCfg_of_valid feats fmt o hfeat hf h1 h2 h3 hsep hexpc hsuf hpre
+  have hc := partial_prefix_sep_number ⟨feats, fmt, false⟩ o s x cnt H (expRadixOK_of _ hexp) hm h
   rw [parseFloatModel_of_valid feats fmt o true f s false h1 h2 h3 h4,
     parseFloatModel_of_valid feats fmt o false f _ false h1 h2 h3 h4, h, hc]
   exact ⟨rfl, rfl⟩
@@ -192,11 +198,12 @@ theorem partial_prefix_sep_special (c : Cfg) (o : POpts) (s : List Nat) (sp : Sp
 
 /-- **C11 (B), formats with separator flags, every result** -/
 theorem partial_prefix_sep (c : Cfg) (o : POpts) (s : List Nat) (p : Parsed)
-    (H : SepCfg c o) (hm : c.requiredMantissaDigits = true) (hh : SpecialHeadsOK c o) (hhs : SpecialHeadsNoSep c o)
+    (H : SepCfg c o) (hE : ExpRadixOK c) (hm : c.requiredMantissaDigits = true) (hh : SpecialHeadsOK c o)
+    (hhs : SpecialHeadsNoSep c o)
     (h : parseFloatSyntax c o true s = .ok p) :
     parseFloatSyntax c o false (s.take (pcount p)) = .ok p := by
   cases p with
-  | number x cnt => exact partial_prefix_sep_number c o s x cnt H hm h
+  | number x cnt => exact partial_prefix_sep_number c o s x cnt H hE hm h
   | special sp ng cnt => exact partial_prefix_sep_special c o s sp ng cnt H hm hh hhs h
   | zero n =>
     exfalso
@@ -260,11 +267,11 @@ theorem partial_prefix_sep_model (feats : Features) (fmt : Format) (o : POpts) (
     (h : parseFloatSyntax ⟨feats, fmt, false⟩ o true s = .ok q) :
     parseFloatModel feats fmt o true f s = renderParsed ⟨feats, fmt, false⟩ f true q ∧
     parseFloatModel feats fmt o false f (s.take (pcount q)) = renderParsed ⟨feats, fmt, false⟩ f false q := by
-  have H := sepCfg_of_valid feats fmt o hfeat hf h1 h2 h3 hsep hexp hexpc hsuf hpre
+  have H := sepCfg_of_valid feats fmt o hfeat hf h1 h2 h3 hsep hexpc hsuf hpre
   have hh : SpecialHeadsOK ⟨feats, fmt, false⟩ o := specialHeadsOK_of_valid _ _ h1 hr18 hdp
   have hhs : SpecialHeadsNoSep ⟨feats, fmt, false⟩ o :=
     specialHeadsNoSep_of_valid _ _ h1 (by simpa [Cfg.digitSeparator, hf] using hsl)
-  have hc := partial_prefix_sep ⟨feats, fmt, false⟩ o s q H hm hh hhs h
+  have hc := partial_prefix_sep ⟨feats, fmt, false⟩ o s q H (expRadixOK_of _ hexp) hm hh hhs h
   rw [parseFloatModel_of_valid feats fmt o true f s false h1 h2 h3 h4,
     parseFloatModel_of_valid feats fmt o false f _ false h1 h2 h3 h4, h, hc]
   exact ⟨rfl, rfl⟩
@@ -305,7 +312,8 @@ theorem partial_prefix_sep_full_partial (feats : Features) (fmt : Format) (o : P
     (hsl : fmt.digitSeparator ≠ 73 ∧ fmt.digitSeparator ≠ 105 ∧ fmt.digitSeparator ≠ 78 ∧ fmt.digitSeparator ≠ 110)
     (h : parseFloatSyntax ⟨feats, fmt, false⟩ o true s = .ok p) :
     parseFloatSyntax ⟨feats, fmt, false⟩ o false (s.take (pcount p)) = .ok p :=
-  partial_prefix_sep _ o s p (sepCfg_of_valid feats fmt o hfeat hf h1 h2 h3 hsep hexp hexpc hsuf hpre) hm hh
+  partial_prefix_sep _ o s p (sepCfg_of_valid feats fmt o hfeat hf h1 h2 h3 hsep hexpc hsuf hpre)
+    (expRadixOK_of _ hexp) hm hh
     (specialHeadsNoSep_of_valid _ _ h1 (by simpa [Cfg.digitSeparator, hf] using hsl)) h
 
 end LexVerif.Props.C11
